@@ -28,9 +28,12 @@ LEVEL_TEXT = ("Reference recogniser (MUST-ACCEPT / MUST-REJECT / EITHER for lexi
               "MessageSchema.load under all five protocols and with Gateway.listen, over: all 20 cross-field classes x "
               "boundary values, every prefix of sampled valid lines, 0-8 fields, each numeric field drawn from "
               "valid/boundary/negative/huge/non-numeric/empty/padded/signed/underscore/Unicode-digit classes. "
-              "Seeded sampling of an infinite language; the class grid itself is swept completely in the thorough tier.")
-LEVEL_NOTE = ("Trusted: reference recogniser in vsim/model.py. Pure input property: no schedule or fault influences "
-              "its truth; inputs are produced by the simulated link's fault operators.")
+              "Seeded sampling of an infinite language; the class grid itself is swept completely in the thorough tier. "
+              "A fifth of the scenarios are mixed 'universe' histories of a living gateway (sends incl. refused ones, "
+              "replies, version switches, re-entry between the lines): what is accepted may not depend on history.")
+LEVEL_NOTE = ("Trusted: reference recogniser in vsim/model.py. Largely an input property: no schedule or fault should "
+              "influence its truth (the universe share checks exactly that); inputs are produced by the simulated link's "
+              "fault operators.")
 TECHNIQUE = "deterministic simulation input space (link-fault operators) + reference recogniser as oracle"
 RULE = ("lines = cross-field class grid + prefixes of valid lines + field-class mutations + literal corner cases; "
         "each line is decoded under 5 protocols directly and once through Gateway.listen; non-trivial iff the line is "
